@@ -67,6 +67,24 @@ def static_part(chk, facts, objs):
     for nm, w in sorted(facts["dangling"].items()):
         fam = "get_representation" if GETTER.search(nm) else "linear_partition" if nm.endswith("_linear_partition") else "other"
         chk.failure({"site_family": fam, "condition": "address-of-temporary-returned"}, {"entry": nm, "compiler": w})
+    # every generated entry ppl_<D>_<suffix> calls the C++ method its name says (a wrapper of ANOTHER operation returns
+    # the wrong information even when the two agree on most objects)
+    ALIAS = {"poly_hull_assign": "upper_bound_assign", "poly_hull_assign_if_exact": "upper_bound_assign_if_exact", "poly_difference_assign": "difference_assign"}
+    for e in entries:
+        if e["file"] == "ppl_c_implementation_common.cc":
+            continue
+        D = e["file"][6:-3]
+        if not e["name"].startswith("ppl_%s_" % D):
+            continue
+        n += 1
+        suf = e["name"][len("ppl_%s_" % D):]
+        if suf == "equals_" + D or re.match(r"(const_)?iterator_", suf) or re.match(r"(BHZ03|BGP99)_", suf):
+            continue
+        m = gen_cif.Gen(D, "", [], {}, 1, False).method_of(suf)
+        cands = {m, ALIAS.get(m, m), re.sub(r"^get_", "", m), re.sub(r"_with_point$", "", m)}
+        if not (cands & set(e["calls"])) and (e["name"] + "_with_tokens") not in e["calls"]:
+            chk.failure({"site": e["name"], "condition": "wraps-other-method"},
+                        {"entry": e["name"], "expected_method": sorted(cands), "calls": e["calls"], "file": e["file"]})
     regs = {e["name"]: e.get("static_objs", []) for e in entries if e["name"] in ("ppl_set_timeout", "ppl_set_deterministic_timeout")}
     want = {"ppl_set_timeout": ["timeout_exception"], "ppl_set_deterministic_timeout": ["deterministic_timeout_exception"]}
     for k, v in want.items():
@@ -285,6 +303,66 @@ def judge_lines(chk, facts, dom, lines, stats):
         chk.count(1, key=(entry, "oom-" + m))
 
 
+def judge_sequences(chk, qlines, stats):
+    """Q lines of run_cif_misc: sequences of set/reset/conversion events; expected outcome from the Coq SPEC machine
+    (CIface/Timeouts.v, vm_compute); the code machine equals it by theorem timeout_sequences."""
+    EV = {"T": "SetT", "t": "ResetT", "H": "SetD Huge", "S": "SetD Tiny", "d": "ResetD", "C": "Conv"}
+    rows = []
+    for ln in qlines:
+        f = ln.split("|")
+        if f[0] == "Q0":
+            if not ln.endswith("back=1"):
+                chk.failure({"site": "ppl_reset_timeout", "condition": "watchdog-object-leaked"}, {"line": ln})
+        elif f[0] == "Q" and len(f) >= 8:
+            rows.append(f)
+    if not rows:
+        chk.broken.append(("timeout-sequences", "no sequence line in the harness output"))
+        return
+    src = ["From Coq Require Import List ZArith Bool.", "Require Import PPLV.CIface.TimeoutSpec.", "Import ListNotations.",
+           "Fixpoint bits (l : list bool) : Z := match l with [] => 0%Z | b :: r => ((if b then 1 else 0) + 2 * bits r)%Z end.",
+           "Definition enc (l : list tev) : Z := let '(s, is) := spec_run (mkS false None) l in",
+           "  ((if s_wall s then 1 else 0) + (match s_det s with Some _ => 2 | None => 0 end) + 4 * bits is)%Z.",
+           "Eval vm_compute in map enc ["]
+    src.append(";\n".join("  [%s]" % "; ".join(EV[c] for c in f[1]) for f in rows))
+    src.append("].")
+    fn = os.path.join(common.BUILD, "cif_seq_%d.v" % os.getpid())
+    open(fn, "w").write("\n".join(src) + "\n")
+    rc, out = common.sh(["coqc", "-Q", common.COQ, "PPLV", fn], timeout=900)
+    for ext in (".v", ".vo", ".vok", ".vos", ".glob"):
+        try: os.remove(fn[:-2] + ext)
+        except OSError: pass
+    try: os.remove(os.path.join(common.BUILD, ".cif_seq_%d.aux" % os.getpid()))
+    except OSError: pass
+    vals = [int(x) for x in re.findall(r"-?\d+", out.split("=", 1)[1].split(":")[0].replace("%Z", ""))] if rc == 0 and "=" in out else []
+    if len(vals) != len(rows):
+        chk.broken.append(("timeout-sequences-model", out[-1500:]))
+        return
+    nint = 0
+    for f, v in zip(rows, vals):
+        seq, convs, delta, bW, bD, bal, bad = f[1], [c for c in f[2].split(",") if c], int(f[3]), int(f[4]), int(f[5]), f[6], f[7]
+        w, d = v & 1, (v >> 1) & 1
+        exp_conv = [((v >> (2 + i)) & 1) for i, c in enumerate(seq) if c == "C"]
+        got_conv = [0 if c == "0" else 1 for c in convs]
+        cond = None
+        if bad != "0":
+            cond = "registration-entry-failed"
+        elif got_conv != exp_conv or any(c not in ("0", "-11D") for c in convs):
+            cond = "conversion-interrupted-differs"
+        elif delta != w * bW + d * bD:
+            cond = "armed-watchdogs-differ"
+        elif bal != "1":
+            cond = "watchdog-object-leaked"
+        nint += sum(got_conv)
+        chk.count(1, key=("timeout-seq", seq))
+        if cond:
+            chk.failure({"site": "timeout-registration-sequence", "condition": cond},
+                        {"sequence": seq, "legend": "T set_timeout t reset_timeout H set_deterministic(huge) S set_deterministic(1) d reset_deterministic C conversion",
+                         "conversions": convs, "model_conversions_interrupted": exp_conv, "blocks_delta": delta, "model_armed": {"wall": w, "deterministic": d},
+                         "blocks_per_watchdog": {"wall": bW, "deterministic": bD}, "ledger_back_to_base": bal, "line": "|".join(f)})
+    stats["timeout_sequences"] = len(rows)
+    stats["timeout_sequence_conversions_interrupted"] = nint
+
+
 def run(chk):
     chk.rule = ("cases = (entry point of the regenerated C interface, argument variant: one valid tuple per object recipe + one "
                 "ill-formed argument at a time, + bad_alloc at the first allocation inside the entry); a case is counted as "
@@ -308,7 +386,7 @@ def run(chk):
             (len(facts["entries"]), len(facts["protos"]), len(doms), nchains, len(dangling)))
     nstatic = static_part(chk, facts, objs)
     chk.count(nstatic)
-    ok = chk.prove(["CIface/Exn.v", "CIface/Entries.v", "CIface/Spec.v", "gen/Facts_CIface.v", "CIface/C20.v"])
+    ok = chk.prove(["CIface/Exn.v", "CIface/Entries.v", "CIface/Spec.v", "gen/Facts_CIface.v", "CIface/C20.v", "CIface/TimeoutSpec.v", "CIface/Timeouts.v"])
     # refutations of the full statements (not audited obligations: they disappear when upstream fixes the defects)
     okr, outr = common.coq_make(["CIface/Refuted_C20.vo"])
     chk.extra["refutations_compile"] = bool(okr)
@@ -316,7 +394,7 @@ def run(chk):
         chk.log("note: CIface/Refuted_C20.v no longer compiles (a known defect was fixed?): %s" % outr[-300:].replace("\n", " "))
     if not ok:
         # the theorems no longer hold on the regenerated facts: still look for a concrete failing input
-        okf, _ = common.coq_make(["CIface/Spec.vo", "gen/Facts_CIface.vo"])
+        okf, _ = common.coq_make(["CIface/Spec.vo", "CIface/TimeoutSpec.vo", "gen/Facts_CIface.vo"])
         if not okf:
             return
 
@@ -365,12 +443,20 @@ def run(chk):
                 chk.failure({"site": setter, "condition": "timeout-not-reported"}, {"line": ln})
             elif nxt != 0:
                 chk.failure({"site": setter, "condition": "still-armed-after-expiry"}, {"line": ln, "meaning": "the call after the interrupted one is interrupted again although no time-out was set"})
+        if f[0] == "V" and len(f) >= 7:
+            chk.count(1, key=("timeouts", "wall-then-deterministic"), sample={"scenario": f[1], "interrupted_call": f[4], "handler_ran": f[5], "cpu_ms": f[6]})
+            if f[2] != "0" or f[3] != "0" or f[4] != "-11":
+                chk.failure({"site": "ppl_set_timeout", "condition": "timeout-not-reported"}, {"line": ln})
+            elif f[5] != "W":
+                chk.failure({"site": "ppl_set_deterministic_timeout", "condition": "cancels-wall-clock-timeout"},
+                            {"line": ln, "meaning": "ppl_set_timeout(3 cs); ppl_set_deterministic_timeout(2^31); long conversion: interrupted by the %s handler, not by the wall clock" % f[5]})
         if f[0] == "E" and len(f) >= 5:
             chk.count(1, key=("ppl_io_wrap_string", f[2], f[3]))
             if f[2] == "oom" and f[3] != "returned":
                 chk.failure({"site": "ppl_io_wrap_string", "condition": "no-try-with-throwing-call"}, {"line": ln, "meaning": "bad_alloc unwound out of the extern \"C\" function"})
             if f[2] == "valid" and f[3] != "same":
                 chk.failure({"site": "ppl_io_wrap_string", "condition": "return-value-differs"}, {"line": ln})
+    judge_sequences(chk, [l for l in out.split("\n") if l.startswith("Q")], stats)
     stats["oom_left_object_not_OK"] = sorted(stats["oom_left_object_not_OK"])
     stats["entries_driven"] = len(set(driven)); stats["entries_not_driven"] = len(set(undriven))
     stats["domains_driven"] = pick
